@@ -812,6 +812,55 @@ theorem font_cache_transparent (mk : RawFontDict → Except String Font) (doc : 
     obtain ⟨h1, h2⟩ := getFont_transparent mk doc m h i
     simp only [getFonts, List.map_cons, h1, ih _ h2]
 
+/-- **Cache key rule**: a font without object id (a dictionary written directly into the resource dictionary) is
+never served from the cache and never stored in it. -/
+theorem getFont_direct (mk : RawFontDict → Except String Font) (m : RsrcMgr) (spec : RawFontDict) :
+    getFont mk m 0 spec = (mk spec, m) := by
+  unfold getFont
+  simp only [bne_self_eq_false, Bool.false_eq_true, if_false, Bool.false_and]
+  cases mk spec <;> rfl
+
+/-- **Font resources of a page / form** (`PDFPageInterpreter.init_resources`): whatever mixture of referenced and
+directly written font dictionaries a /Font resource dictionary lists, in whatever order, with the cache on or off
+and whatever earlier pages left in the cache, EVERY entry gets the font constructed from ITS OWN dictionary. -/
+theorem init_fonts_own_dictionary (mk : RawFontDict → Except String Font) (doc : Nat → RawFontDict)
+    (entries : List (Option Nat × RawFontDict)) :
+    ∀ (m : RsrcMgr), CacheOK mk doc m → (∀ e ∈ entries, ∀ i, e.1 = some i → i ≠ 0 → e.2 = doc i) →
+      (initFonts mk m entries).1 = entries.map (fun e => mk e.2) ∧ CacheOK mk doc (initFonts mk m entries).2 := by
+  induction entries with
+  | nil => intro m h _; exact ⟨rfl, h⟩
+  | cons e rest ih =>
+    intro m h hd
+    obtain ⟨ref, spec⟩ := e
+    have hrest : ∀ e ∈ rest, ∀ i, e.1 = some i → i ≠ 0 → e.2 = doc i :=
+      fun e he => hd e (List.mem_cons_of_mem _ he)
+    simp only [initFonts, List.map_cons]
+    by_cases h0 : ref.getD 0 = 0
+    · rw [h0, getFont_direct]
+      obtain ⟨a, b⟩ := ih m h hrest
+      exact ⟨by rw [a], b⟩
+    · have hs : spec = doc (ref.getD 0) := by
+        cases ref with
+        | none => exact absurd rfl h0
+        | some i => exact hd (some i, spec) (List.mem_cons_self) i rfl (by simpa using h0)
+      rw [hs]
+      obtain ⟨h1, h2⟩ := getFont_transparent mk doc m h (ref.getD 0)
+      obtain ⟨a, b⟩ := ih _ h2 hrest
+      exact ⟨by rw [h1, a], b⟩
+
+/-- Non-vacuity and the shape of the seeded defect: a referenced font followed by a directly written one - the second
+entry is constructed from its own dictionary although the first is in the cache. -/
+example (mk : RawFontDict → Except String Font) (doc : Nat → RawFontDict) (inl : RawFontDict) :
+    (initFonts mk { caching := true, cache := [] } [(some 4, doc 4), (none, inl)]).1 = [mk (doc 4), mk inl] := by
+  have := (init_fonts_own_dictionary mk doc [(some 4, doc 4), (none, inl)] { caching := true, cache := [] }
+    (by intro e he; cases he) (by
+      intro e he i hi _
+      simp only [List.mem_cons, List.not_mem_nil, or_false] at he
+      rcases he with rfl | rfl
+      · simp only [Option.some.injEq] at hi; subst hi; rfl
+      · cases hi)).1
+  simpa using this
+
 /-- Non-vacuity: a fresh resource manager satisfies the invariant. -/
 example (mk : RawFontDict → Except String Font) (doc : Nat → RawFontDict) (c : Bool) :
     CacheOK mk doc { caching := c, cache := [] } := by intro e he; cases he
